@@ -1,3 +1,4 @@
+import os
 """Per-property run plans: which engines run, with which budgets, for which tier."""
 
 N = 16  # shards
@@ -59,6 +60,23 @@ PLANS["C03"] = {
 }
 
 
+ASAN_ENV = {"ASAN_OPTIONS": "detect_leaks=0:handle_segv=0:allow_user_segv_handler=1:abort_on_error=1:"
+                            "detect_stack_use_after_return=0",
+            "UBSAN_OPTIONS": "print_stacktrace=1:halt_on_error=1"}
+
+
+def _with_asan(engine, quick, thorough, aq, at, args=()):
+    """main run on the base flavour plus the same engine on the ASan+UBSan flavour (C code of the library:
+    manager, validation, burst code, C kernels and glue)"""
+    def runs(tier, seed):
+        t = tier == "thorough"
+        return [{"engine": engine, "args": list(args), "cases": thorough if t else quick, "shards": N,
+                 "timeout": 3600 if t else 1200},
+                {"engine": engine, "args": list(args), "cases": at if t else aq, "shards": N, "flavour": "asan",
+                 "env": ASAN_ENV, "timeout": 3600 if t else 1200}]
+    return runs
+
+
 def _simple(engine, quick, thorough, args=(), shards=N, flavour="base", timeout=(900, 3600)):
     def runs(tier, seed):
         return [{"engine": engine, "args": list(args), "cases": thorough if tier == "thorough" else quick,
@@ -82,7 +100,7 @@ PLANS["C04"] = {
 }
 PLANS["C05"] = {
     "level": "exploration",
-    "runs": _simple("ring", 6000, 300000),
+    "runs": _with_asan("ring", 6000, 300000, 1600, 40000),
     "cov_class": "C05",
     "rule": ("cases = API histories (scripted: every ring phase 0..255 x parked oldest job x 254..315 further "
              "submissions incl. the full-queue condition, rejected job at head/middle/tail; burst scripts: queue "
@@ -130,6 +148,11 @@ def _c07(tier, seed):
     return [
         {"engine": "bounds", "args": [], "cases": 1, "shards": N, "timeout": 3000},
         {"engine": "mix", "args": [], "cases": 8000 if tier == "quick" else 200000, "shards": N, "timeout": 3000},
+        # the library's C code (3GPP C kernels, ChaCha20-Poly1305/SM4-GCM glue, manager) under ASan+UBSan: overflows of the
+        # library's own stack/static buffers that guard pages around *caller* objects cannot see
+        {"engine": "bounds", "args": [], "cases": 1, "shards": N, "flavour": "asan", "env": ASAN_ENV, "timeout": 3000},
+        {"engine": "mix", "args": [], "cases": 4000 if tier == "quick" else 60000, "shards": N, "flavour": "asan",
+         "env": ASAN_ENV, "timeout": 3000},
     ]
 
 
@@ -153,7 +176,7 @@ PLANS["C07"] = {
 }
 PLANS["C12"] = {
     "level": "fault_enumeration",
-    "runs": _simple("reject", 1, 1, timeout=(1800, 3600)),
+    "runs": _with_asan("reject", 1, 1, 1, 1),
     "cov_class": "C12",
     "exhaustive": True,
     "rule": ("fault enumeration: for every suite (cipher, hash, AEAD tables; 3 lengths x 2 directions) and 19 "
@@ -464,4 +487,73 @@ PLANS["C19"] = {
                     "key set-up functions are outside the property ('while processing a job'); observed there: "
                     "des_key_schedule indexes the byte-reflection table by key bytes (recorded in evidence extra, "
                     "DESIGN.md)"],
+}
+
+
+def _abi_post(agg, res, label, synthetic):
+    import json as _json
+    import os as _os
+    import re as _re
+    names = agg.__dict__.setdefault("abi_names", set())
+    for line in res["out"].splitlines():
+        if line.startswith('{"ev":"abi_exports"'):
+            try:
+                names.update(_json.loads(line)["names"].split(","))
+            except ValueError:
+                pass
+    # official export list
+    exp = agg.__dict__.get("abi_official")
+    if exp is None:
+        exp = set()
+        deff = _os.path.join(_os.environ.get("IMBV_REPO", "/repo"), "lib", "libIPSec_MB.def")
+        try:
+            for ln in open(deff):
+                m = _re.match(r"\s+([A-Za-z_0-9]+)\s+@\d+", ln)
+                if m:
+                    exp.add(m.group(1))
+        except OSError:
+            pass
+        agg.abi_official = exp
+    hit = names & exp
+    agg.counts["exported_functions_total"] = len(exp)
+    agg.counts["exported_functions_entered_directly"] = len(hit)
+    missing = sorted(exp - names)
+    agg.extra["exported_functions_not_entered_directly"] = [", ".join(missing)[:6000]]
+
+
+def _c18(tier, seed):
+    q = tier == "quick"
+    runs = []
+    for eng, cq, ct_, args in (("entry", 6000, 300000, []), ("mix", 16000, 400000, []), ("ring", 1500, 60000, []),
+                               ("sgl", 1500, 60000, []), ("keys", 1500, 60000, []), ("reject", 1, 1, []),
+                               ("abi", 6, 64, [])):
+        if eng == "abi" and not os.path.exists(os.path.join(os.path.dirname(os.path.dirname(os.path.abspath(__file__))),
+                                                             "harness", "eng_abi.c")):
+            continue
+        runs.append({"engine": eng, "args": ["--abi"] + args, "cases": cq if q else ct_, "shards": N, "shared": True,
+                     "timeout": 3600, "post": _abi_post})
+    return runs
+
+
+PLANS["C18"] = {
+    "level": "exploration",
+    "runs": _c18,
+    "cov_class": "C18",
+    "rule": ("cases = library calls made through the assembly trampoline (M-TRAMP): before the call rbx, rbp, r12-r15 are "
+             "loaded with fresh random canaries, MXCSR is set to one of 10 values (4 rounding modes, FTZ, DAZ, all "
+             "sticky flags set, combinations; exceptions masked), vector and mask registers are zeroed; immediately "
+             "after the return - before any compiled code runs - the register file, rsp, RFLAGS.DF and MXCSR are "
+             "sampled and compared. Workloads: every entry point x every suite (entry engine), schedule fuzzer (submit "
+             "that parks / completes / is rejected, flush and get_completed with every occupancy), ring histories incl. "
+             "full queue and burst API, SGL, key helpers, the rejection catalogue (error exits) and the direct-API sweep "
+             "(valid, NULL and over-limit arguments = SAFE_PARAM error exits) on the shared-library build, all 7 "
+             "variants. distinct = distinct (variant, entry point, returned NULL/non-NULL, MXCSR value) tuples; lane "
+             "states are counted separately in abi_lane_state (variant, call, cipher, hash, queue occupancy, outcome); "
+             "the dynamic symbols actually entered are compared with lib/libIPSec_MB.def. non-trivial = all."),
+    "floors": {"quick": {"tramp_calls": 2000000, "cov:C18": 4000, "cov:abi_lane_state": 30000,
+                         "exported_functions_entered_directly": 150}},
+    "assumptions": ["exported per-architecture functions are reached through the manager's function pointers of the "
+                    "matching variant; AVX2 t3/t4-only and exported-but-unreferenced symbols are listed in evidence "
+                    "extra as not entered",
+                    "vector registers are all caller-saved in the SysV ABI and not compared"],
 }
